@@ -45,7 +45,9 @@ def validate(trace_path, rc, workdir, no_resize=None, timeout=3600, kind="manage
     open(cfg, "w").write(txt)
     env = dict(os.environ)
     env["TRACE"] = os.path.abspath(trace_path)
-    env["JAVA_TOOL_OPTIONS"] = "-Xss1g -Dtlc2.tool.queue.IStateQueue=StateDeque"
+    jtmp = os.path.join(workdir, "jtmp")
+    os.makedirs(jtmp, exist_ok=True)
+    env["JAVA_TOOL_OPTIONS"] = "-Xss1g -Dtlc2.tool.queue.IStateQueue=StateDeque -Djava.io.tmpdir=" + jtmp
     n = sum(1 for _ in open(trace_path))
     t0 = time.time()
     p = subprocess.run(["timeout", str(timeout), "tlc", "-workers", "1", "-metadir", os.path.join(workdir, "meta"), "-cleanup",
